@@ -11,6 +11,7 @@ CONSTANTS
   Keys <- MC_Keys
   Deviations = {}
   CanonName = "sac"
+  Donated = 0
   Small = FALSE
 INIT Init
 NEXT Next
